@@ -3,6 +3,7 @@ C14 — base rate metrics are weighted confusion-matrix ratios for any binary en
 Property theorems only; helper lemmas live in `Lemmas/BaseMetrics.lean`.
 -/
 import FairModel.Lemmas.BaseMetrics
+import FairModel.Lemmas.BaseMetricsSrc
 
 namespace C14
 open BaseMetrics
@@ -173,6 +174,161 @@ theorem meanPrediction_unit (rows : List PRow) (h1 : ∀ r ∈ rows, r.w = 1) :
 /-- count is the number of rows -/
 theorem count_def (rows : List Row) : count rows = rows.length := rfl
 
+/-! ### Tie to the source text
+
+`Generated/BaseMetricsSrc.lean` is the statement-by-statement translation of the bodies of
+`_get_labels_for_confusion_matrix`, the four rate functions, `count`, `mean_prediction` and
+`selection_rate` (lifter `harness/lifters/base_metrics.py`, regenerated from /repo on every run).
+The `src_*_eq_model` theorems identify the translated functions with the hand-written model — so
+every theorem above (and those of C11 / C03 / C06 that use `BaseMetrics`) is a statement about the
+source text — and the property clauses are restated directly for the translated functions.
+Statements are over the columns `rows.map (·.yt)` etc. of an arbitrary row list: every call with
+arrays of equal length is of this form. -/
+
+section Source
+open BaseMetricsSrc
+
+/-- the y_true / y_pred / sample_weight arrays of a row list -/
+abbrev colT (rows : List Row) : List Int := rows.map (·.yt)
+abbrev colP (rows : List Row) : List Int := rows.map (·.yp)
+abbrev colW (rows : List Row) : Option (List Rat) := some (rows.map (·.w))
+
+theorem src_labels_eq_model (labels : List Int) (p : Option Int) :
+    get_labels_for_confusion_matrix labels p = (labelsForCM labels p).map (fun np => [np.1, np.2]) :=
+  BaseMetricsGen.labels_eq_model labels p
+
+/-- the translated `true_positive_rate` … `true_negative_rate` are the model's `rate` -/
+theorem src_rate_eq_model (k : Kind) (rows : List Row) (p : Option Int) :
+    BaseMetricsGen.rate k (colT rows) (colP rows) (colW rows) p = rate k rows p :=
+  BaseMetricsGen.rate_eq_model k rows p
+
+/-- `sample_weight=None` in the translated functions is the all-ones weight vector -/
+theorem src_rate_none_eq_model (k : Kind) (rows : List Row) (p : Option Int) :
+    BaseMetricsGen.rate k (colT rows) (colP rows) none p = rate k (BaseMetricsGen.unitW rows) p :=
+  BaseMetricsGen.rate_none_eq_model k rows p
+
+theorem src_selection_rate_eq_model (rows : List Row) (pos : Int) :
+    selection_rate (colT rows) (colP rows) pos (colW rows) = selectionRate rows pos :=
+  BaseMetricsGen.selection_rate_eq_model rows pos
+
+theorem src_selection_rate_none_eq_model (rows : List Row) (pos : Int) :
+    selection_rate (colT rows) (colP rows) pos none = selectionRate (BaseMetricsGen.unitW rows) pos :=
+  BaseMetricsGen.selection_rate_none_eq_model rows pos
+
+theorem src_mean_prediction_eq_model (yt : List Rat) (rows : List PRow) :
+    mean_prediction yt (rows.map (·.pred)) (some (rows.map (·.w))) = .ok (meanPrediction rows) :=
+  BaseMetricsGen.mean_prediction_eq_model yt rows
+
+theorem src_mean_prediction_none_eq_model (yt : List Rat) (rows : List PRow) :
+    mean_prediction yt (rows.map (·.pred)) none = .ok (meanPrediction (BaseMetricsGen.unitP rows)) :=
+  BaseMetricsGen.mean_prediction_none_eq_model yt rows
+
+theorem src_count_eq_model (rows : List Row) :
+    BaseMetricsSrc.count (colT rows) (colP rows) = .ok rows.length :=
+  BaseMetricsGen.count_eq_model rows
+
+/-- whatever a translated rate function returns is in [0,1] -/
+theorem src_rate_in_unit_interval (k : Kind) (rows : List Row) (p : Option Int) (v : Rat)
+    (hw : NonNegW rows) (h : BaseMetricsGen.rate k (colT rows) (colP rows) (colW rows) p = .ok v) :
+    0 ≤ v ∧ v ≤ 1 := by
+  rw [src_rate_eq_model] at h
+  exact rate_public_in_unit_interval k rows p v hw h
+
+/-- translated TPR + FNR = 1 when the positive confusion-matrix row is non-empty, else both are 0;
+    `(neg, pos)` are the labels the translated `_get_labels_for_confusion_matrix` returns -/
+theorem src_tpr_add_fnr (rows : List Row) (p : Option Int) (a b : Rat)
+    (ha : true_positive_rate (colT rows) (colP rows) (colW rows) p = .ok a)
+    (hb : false_negative_rate (colT rows) (colP rows) (colW rows) p = .ok b) :
+    ∃ neg pos, get_labels_for_confusion_matrix (allLabels rows) p = .ok [neg, pos] ∧
+      (rowTot rows neg pos pos ≠ 0 → a + b = 1) ∧ (rowTot rows neg pos pos = 0 → a = 0 ∧ b = 0) := by
+  have ha' := src_rate_eq_model .tpr rows p
+  have hb' := src_rate_eq_model .fnr rows p
+  simp only [BaseMetricsGen.rate] at ha' hb'
+  rw [ha'] at ha; rw [hb'] at hb
+  rw [src_labels_eq_model]
+  unfold rate at ha hb
+  cases hl : labelsForCM (allLabels rows) p with
+  | error e => simp [hl] at ha
+  | ok np =>
+    obtain ⟨neg, pos⟩ := np
+    simp only [hl, rateOf, Except.ok.injEq] at ha hb
+    subst ha; subst hb
+    exact ⟨neg, pos, rfl, (tpr_add_fnr rows neg pos).1, (tpr_add_fnr rows neg pos).2⟩
+
+theorem src_tnr_add_fpr (rows : List Row) (p : Option Int) (a b : Rat)
+    (ha : true_negative_rate (colT rows) (colP rows) (colW rows) p = .ok a)
+    (hb : false_positive_rate (colT rows) (colP rows) (colW rows) p = .ok b) :
+    ∃ neg pos, get_labels_for_confusion_matrix (allLabels rows) p = .ok [neg, pos] ∧
+      (rowTot rows neg pos neg ≠ 0 → a + b = 1) ∧ (rowTot rows neg pos neg = 0 → a = 0 ∧ b = 0) := by
+  have ha' := src_rate_eq_model .tnr rows p
+  have hb' := src_rate_eq_model .fpr rows p
+  simp only [BaseMetricsGen.rate] at ha' hb'
+  rw [ha'] at ha; rw [hb'] at hb
+  rw [src_labels_eq_model]
+  unfold rate at ha hb
+  cases hl : labelsForCM (allLabels rows) p with
+  | error e => simp [hl] at ha
+  | ok np =>
+    obtain ⟨neg, pos⟩ := np
+    simp only [hl, rateOf, Except.ok.injEq] at ha hb
+    subst ha; subst hb
+    exact ⟨neg, pos, rfl, (tnr_add_fpr rows neg pos).1, (tnr_add_fpr rows neg pos).2⟩
+
+/-- switching `pos_label` exchanges the translated functions: TPR<->TNR, FPR<->FNR -/
+theorem src_pos_label_swap (rows : List Row) (a b : Int) (hab : a < b)
+    (hu : uniqueSorted (allLabels rows) = [a, b]) :
+    true_positive_rate (colT rows) (colP rows) (colW rows) (some b) =
+      true_negative_rate (colT rows) (colP rows) (colW rows) (some a) ∧
+    false_positive_rate (colT rows) (colP rows) (colW rows) (some b) =
+      false_negative_rate (colT rows) (colP rows) (colW rows) (some a) ∧
+    true_negative_rate (colT rows) (colP rows) (colW rows) (some b) =
+      true_positive_rate (colT rows) (colP rows) (colW rows) (some a) ∧
+    false_negative_rate (colT rows) (colP rows) (colW rows) (some b) =
+      false_positive_rate (colT rows) (colP rows) (colW rows) (some a) := by
+  have h := pos_label_swap_public rows a b hab hu
+  have e : ∀ k p, BaseMetricsGen.rate k (colT rows) (colP rows) (colW rows) p = rate k rows p :=
+    fun k p => src_rate_eq_model k rows p
+  have e1 := e .tpr; have e2 := e .fnr; have e3 := e .fpr; have e4 := e .tnr
+  simp only [BaseMetricsGen.rate] at e1 e2 e3 e4
+  rw [e1, e1, e2, e2, e3, e3, e4, e4]
+  exact h
+
+/-- translated `_get_labels_for_confusion_matrix`: accepted inputs give `[neg, pos]` with the
+    requested positive label LAST -/
+theorem src_labels_pos_last (labels : List Int) (p : Int) (l : List Int)
+    (h : get_labels_for_confusion_matrix labels (some p) = .ok l) : ∃ neg, l = [neg, p] := by
+  rw [src_labels_eq_model] at h
+  cases hl : labelsForCM labels (some p) with
+  | error e => simp [hl, Except.map] at h
+  | ok np =>
+    obtain ⟨neg, pos⟩ := np
+    have := accepted_pos labels p neg pos hl
+    simp only [hl, Except.map, Except.ok.injEq] at h
+    exact ⟨neg, by rw [← h, this]⟩
+
+/-- translated `selection_rate` is the weighted fraction of predictions equal to `pos_label` -/
+theorem src_selection_rate_def (rows : List Row) (pos : Int) (hne : rows ≠ []) :
+    selection_rate (colT rows) (colP rows) pos (colW rows) =
+      .ok (((rows.filter (fun r => r.yp == pos)).map (·.w)).sum / (rows.map (·.w)).sum) := by
+  rw [src_selection_rate_eq_model]; exact selectionRate_def rows pos hne
+
+theorem src_selection_rate_in_unit_interval (rows : List Row) (pos : Int) (v : Rat) (hw : NonNegW rows)
+    (h : selection_rate (colT rows) (colP rows) pos (colW rows) = .ok v) : 0 ≤ v ∧ v ≤ 1 := by
+  rw [src_selection_rate_eq_model] at h; exact selectionRate_in_unit_interval rows pos v hw h
+
+/-- translated `selection_rate` rejects the empty input -/
+theorem src_selection_rate_empty (pos : Int) (w : Option (List Rat)) :
+    selection_rate [] [] pos w = .error .empty := by
+  cases w <;> rfl
+
+/-- translated `mean_prediction` is the weighted mean prediction -/
+theorem src_mean_prediction_def (yt : List Rat) (rows : List PRow) :
+    mean_prediction yt (rows.map (·.pred)) (some (rows.map (·.w))) =
+      .ok ((rows.map (fun r => r.pred * r.w)).sum / (rows.map (·.w)).sum) := by
+  rw [src_mean_prediction_eq_model]; rfl
+
+end Source
+
 /-! Non-vacuity: concrete inputs meeting the hypotheses, evaluated by the kernel. -/
 def ex1 : List Row := [⟨1, 1, 2⟩, ⟨1, 0, 1⟩, ⟨0, 1, 1⟩, ⟨0, 0, 3⟩]
 example : rate .tpr ex1 none = .ok (2/3) := by decide +kernel
@@ -181,5 +337,10 @@ example : rate .tnr ex1 (some 0) = .ok (2/3) := by decide +kernel
 example : uniqueSorted (allLabels ex1) = [0, 1] := by decide +kernel
 example : selectionRate [⟨1, 1, 2⟩] 1 = .ok 1 := by decide +kernel
 example : labelsForCM [5, 7] none = .error .restricted := by decide +kernel
+example : BaseMetricsSrc.true_positive_rate (colT ex1) (colP ex1) (colW ex1) none = .ok (2/3) := by decide +kernel
+example : BaseMetricsSrc.false_negative_rate (colT ex1) (colP ex1) none (some 0) = .ok (1/2) := by decide +kernel
+example : BaseMetricsSrc.get_labels_for_confusion_matrix [7, 7] (some 7) = .ok [int64Min, 7] := by decide +kernel
+example : BaseMetricsSrc.get_labels_for_confusion_matrix [3, 7, 3] (some 3) = .ok [7, 3] := by decide +kernel
+example : BaseMetricsSrc.selection_rate [1] [1] 1 (some [2]) = .ok 1 := by decide +kernel
 
 end C14
